@@ -721,7 +721,7 @@ func main() {
 			"cut at every position (up to 70000 content bytes: the ReadString encodings, in the thorough tier also sigreader s, reflect-decode s, newvalue m<s> and m<r>) or at the stated set {every k < c+16, every k >= len-16, c + stride*j + {-1,0,+1} for every j} with c = offset of the first content byte " +
 			"(the other entry points, stride 256; content above 70000 bytes, stride 4096), each prefix under the three deliveries; the exact numbers are in the note 'long-string corpus'. " +
 			"homonyms family: four function-local named struct types sharing package path, Name() and String(): for every ordered pair, after the first was decoded completely, every strict prefix of the second's encoding (both end-of-stream modes) must be refused and its complete encoding decode exactly. " +
-			"pointer-members family: three Go types with pointer members and elements (*struct in the middle and last, *scalar last, []*struct followed by a pointer), every strict prefix in both end-of-stream modes refused, complete encoding decoded exactly. " +
+			"over-cap-containers family: maps and lists announcing 4095 / 4096 / 4097 / 5000 entries decoded into nil destinations (alone and as members), cuts around the 4096th entry, at the end and every 97th byte: no prefix accepted, a complete encoding is decoded completely or (above the cap) refused. pointer-members family: also platform-sized int / uint and every scalar Go kind; three Go types with pointer members and elements (*struct in the middle and last, *scalar last, []*struct followed by a pointer), every strict prefix in both end-of-stream modes refused, complete encoding decoded exactly. " +
 			"For the long-string family the full encoding is judged too: it must be accepted, consumed exactly and decode to the original under 5 deliveries (fingerprints full/...). " +
 			"evaluations counts decoder runs. A case class is (decoder, signature shape or decoder field path, element kind and part containing the first missing byte, outcome); " +
 			"distinct_nontrivial counts the distinct classes executed"
@@ -749,6 +749,7 @@ func main() {
 	familyLongStrings(run.Thorough())
 	familyHomonyms()
 	familyPointers()
+	familyOverCap()
 	familyMessages()
 	familyStubs()
 	familyFixed()
